@@ -44,6 +44,7 @@ type Group struct {
 	LossyFmt    bool                           `json:"lossy_fmt"`
 	LockGuard   *symx.LockGuard                `json:"lock_guard"`
 	RaceFn      string                         `json:"race_fn"`
+	Summarize   []string                       `json:"summarize"`
 }
 
 type Spec struct {
@@ -296,6 +297,10 @@ func main() {
 			cfg.AllocFactor, cfg.AllocBase = g.AllocFactor, g.AllocBase
 			cfg.LossyFmt = g.LossyFmt
 			cfg.LockGuard = g.LockGuard
+			cfg.Summarize = map[string]bool{}
+			for _, f := range g.Summarize {
+				cfg.Summarize[f] = true
+			}
 			if g.InputLenP != "" {
 				cfg.InputLen = in.params[g.InputLenP]
 			}
